@@ -502,14 +502,16 @@ func gname(g *gor) string {
 // handoff passes the baton; a full resume buffer means two goroutines were
 // about to run at once (an engine bug): fail loudly instead of hanging.
 func (s *scheduler) handoff(next *gor, why string) {
-	select {
-	case next.resume <- true:
-	default:
-		panic(unsupported{"engine scheduler: double resume of " + gname(next) + " (" + why + "); history: " + strings.Join(s.hist, " | ")})
-	}
+	// all bookkeeping BEFORE the baton changes hands: afterwards the receiver
+	// runs concurrently with the rest of this function.
 	s.lastHandoff = why + " -> " + gname(next)
 	s.hist = append(s.hist, s.lastHandoff)
 	if len(s.hist) > 12 {
 		s.hist = s.hist[1:]
+	}
+	select {
+	case next.resume <- true:
+	default:
+		panic(unsupported{"engine scheduler: double resume of " + gname(next) + " (" + why + "); history: " + strings.Join(s.hist, " | ")})
 	}
 }
